@@ -96,6 +96,8 @@ class History:
         self.shadow = []
         self.tasks = {}            # c -> (task, fut)
         self.reported_done = set()
+        self.sync_reply = None
+        self.sync_done = []
         self.nds = 0
         hist = self
 
@@ -111,6 +113,12 @@ class History:
         self.DS = DS
 
     async def _executor(self, target, a, title):
+        if self.sync_reply is not None:
+            kind, val, c = self.sync_reply
+            self.execlog.append({"target": target, "node": a, "title": title, "fut": None})
+            if kind == "raise":
+                raise Boom(c)
+            return val
         fut = self.loop.create_future()
         self.execlog.append({"target": target, "node": a, "title": title, "fut": fut})
         return await fut
@@ -138,7 +146,7 @@ class History:
                 newexec = []
                 for e in self.execlog[nexec0:]:
                     sh = None
-                    if a["act"] == "ValueStart":
+                    if a["act"] in ("ValueStart", "ValueSync"):
                         sh = remove_empty_metadata(self.shadow[a["s"] - 1].query_ast)
                     newexec.append({
                         "target": e["target"], "ast": codec.enc(e["node"]),
@@ -148,7 +156,8 @@ class History:
                         "dump": str(hash(ast.dump(e["node"]))),
                         "sdump": str(hash(ast.dump(sh))) if sh is not None else "",
                     })
-                done = []
+                done = list(self.sync_done)
+                self.sync_done = []
                 for c, (task, fut) in sorted(self.tasks.items()):
                     if task.done() and c not in self.reported_done:
                         self.reported_done.add(c)
@@ -244,6 +253,19 @@ class History:
         elif act == "Terminal":
             self.streams.append(s.AsAwkwardArray(["c"]))
             self.shadow.append(sh.AsAwkwardArray(["c"]))
+        elif act == "ValueSync":
+            # the synchronous wrapper value(): the dataset's executor answers at once
+            self.sync_reply = (a["op"], a["v"], a["c"])
+            kw = {}
+            if a["title"] != "":
+                kw["title"] = a["title"]
+            try:
+                r = s.value(**kw)
+                self.sync_done.append({"c": a["c"], "kind": "ret", "val": r if isinstance(r, int) else -1})
+            except Boom as e:
+                self.sync_done.append({"c": a["c"], "kind": "raise" if e.args == (a["c"],) else "raise-other", "val": 0})
+            finally:
+                self.sync_reply = None
         elif act == "ValueStart":
             n0 = len(self.execlog)
             kw = {}
